@@ -116,7 +116,7 @@ fn open_res<T>(r: &Result<RvResult<T>, String>) -> Value {
 fn rop_json(op: &ROp) -> Value {
     match op {
         ROp::Read(n) => json!({"op": "read", "n": n}),
-        ROp::Start(k) => json!({"op": "start", "n": k}),
+        ROp::Start(k) => json!({"op": "start", "n": cap(*k)}),
         // i64::MIN is logged as the most negative offset the validator's integers hold: from any position of these files both
         // lead before the start, so the expected outcome (error, position kept) is the same
         ROp::Cur(k) => json!({"op": "cur", "n": (*k).max(-2_147_483_647)}),
@@ -474,6 +474,29 @@ fn main() {
                             prog.mark(id, &format!("rs {:?} {:?}", data, ops));
                             out.rec(&run_rs(&membe(), data, ops));
                             out.rec(&run_rs(&stdbe(), data, ops));
+                        }
+                    }
+                }
+            }
+            // scale: positions at and beyond 2^31 / 2^63 / 2^64-1 (std::io::Cursor accepts any u64 position; a read there returns 0
+            // bytes).  The validator's integers are 32-bit, so such a position is logged as 2^31-1 (rop_json / cap) and the scripts
+            // only read or seek absolutely / from the end afterwards - the expected outcomes are the same for every position >= len.
+            for hpos in [1u64 << 31, 1u64 << 40, (1u64 << 62) - 1, i64::MAX as u64, 1u64 << 63, u64::MAX] {
+                for dl in [0usize, 3] {
+                    for ops in [
+                        vec![ROp::Start(hpos), ROp::Read(1), ROp::Read(4), ROp::Start(1), ROp::Read(2)],
+                        vec![ROp::Start(hpos), ROp::End(-1), ROp::Read(3)],
+                        vec![ROp::Start(hpos), ROp::Read(0), ROp::End(0), ROp::Read(1)],
+                    ] {
+                        if mine(&mut id) {
+                            prog.mark(id, "rs huge position");
+                            out.rec(&run_rs(&membe(), &pattern[..dl], &ops));
+                            // a real file's offset is a signed 64-bit off_t: the kernel refuses lseek beyond i64::MAX and read()
+                            // where offset + count overflows it (EINVAL) - outside what a file handle can be asked; on the real
+                            // filesystem the huge positions stop at 2^62
+                            if hpos < (1u64 << 62) {
+                                out.rec(&run_rs(&stdbe(), &pattern[..dl], &ops));
+                            }
                         }
                     }
                 }
